@@ -28,7 +28,8 @@ pub fn panic_kind(msg: &str) -> &'static str {
         "leak_alloc"
     } else if msg.starts_with("Messages leaked") {
         "leak_msgs"
-    } else if msg.starts_with("injected failure") {
+    } else if msg.starts_with("injected failure") || msg.starts_with("currently writing to cell") || msg.starts_with("currently reading from cell") {
+        // (the last two: loom's report of a nested access, `Op::CellNested`)
         "injected"
     } else if msg.contains("Model exceeded maximum number of branches") {
         "branch_limit"
@@ -67,6 +68,7 @@ pub fn has_na(p: &Program) -> bool {
                 | Op::AtomUnsyncLoad { .. }
                 | Op::LazyCellRead { .. }
                 | Op::PanicInCellMut { .. }
+                | Op::CellNested { .. }
                 | Op::PanicInAtomMut { .. }
         )
     }) || p.n_arcs() > 0
